@@ -318,6 +318,65 @@ Verdict judge_c10(Plan const& p, History const& h, RunInfoLite const& ri)
     }
     v.probes["file_sinks_checked"]++;
   }
+  // flush_log() still means "written and flushed" for every sink that did not itself fail: at each flush return,
+  // every statement of the caller that was written to a recording sink has a later flush_sink call (or that sink's
+  // own injected flush failure) before the return
+  {
+    std::vector<std::vector<uint64_t>> fl(m.by_sink.size());
+    for (auto const& e : h.ev)
+    {
+      if ((e.type == EV_SINK_FLUSH || (e.type == EV_SINK_THROW && e.c == 1)) && e.a >= 0 && static_cast<size_t>(e.a) < fl.size())
+      {
+        fl[static_cast<size_t>(e.a)].push_back(e.seq);
+      }
+    }
+    std::map<int, uint64_t> open_flush;
+    for (auto const& e : h.ev)
+    {
+      if (e.type == EV_FLUSH_INVOKE)
+      {
+        open_flush[e.thread] = e.seq;
+      }
+      else if (e.type == EV_FLUSH_RETURN && open_flush.count(e.thread))
+      {
+        uint64_t I = open_flush[e.thread], R = e.seq;
+        for (size_t s2 = 0; s2 < m.by_sink.size(); ++s2)
+        {
+          uint64_t last_write = 0;
+          int64_t last_id = -1;
+          for (auto const& w : m.by_sink[s2])
+          {
+            auto it = m.issued.find(w.id);
+            if (it != m.issued.end() && it->second.thread == e.thread && it->second.return_seq < I && w.seq < R)
+            {
+              last_write = w.seq;
+              last_id = w.id;
+            }
+          }
+          if (last_write == 0)
+          {
+            continue;
+          }
+          bool ok = false;
+          for (uint64_t f : fl[s2])
+          {
+            if (f > last_write && f < R)
+            {
+              ok = true;
+            }
+          }
+          if (!ok)
+          {
+            return violation("flush_returned_with_a_healthy_sink_unflushed",
+                             "flush_log() of thread " + std::to_string(e.thread) + " returned at event " + std::to_string(R) +
+                               " but sink " + std::to_string(s2) + " was not flushed after id " + std::to_string(last_id) +
+                               " (written at event " + std::to_string(last_write) + ")");
+          }
+          v.probes["flush_returns_sink_pairs_checked"]++;
+        }
+      }
+    }
+  }
   // every fault is reported through the error notifier
   uint64_t reports = 0;
   for (auto const& n : m.notifier)
@@ -357,6 +416,7 @@ Verdict judge_c10(Plan const& p, History const& h, RunInfoLite const& ri)
   v.probes["fwrite_failures"] = ri.fwrite_faults;
   v.probes["notifier_reports"] = reports;
   v.probes["file_sinks_checked"] += 0;
+  v.probes["flush_returns_sink_pairs_checked"] += 0;
   return v;
 }
 
